@@ -14,8 +14,8 @@ CORR_BITS = (0, 1)          # model/implementation disagree; an oracle value vio
 
 def sizes(tier):
     if tier == "quick":
-        return dict(replay=260, stub=220, alm=100, almh=140, max_n=7, max_len=8, max_calls=4)
-    return dict(replay=3000, stub=2500, alm=1500, almh=2000, max_n=10, max_len=10, max_calls=6)
+        return dict(replay=260, stub=220, alm=100, almh=140, sop=300, max_n=7, max_len=8, max_calls=4)
+    return dict(replay=3000, stub=2500, alm=1500, almh=2000, sop=6000, max_n=10, max_len=10, max_calls=6)
 
 
 def corpus_cases(kind):
@@ -43,6 +43,10 @@ def streams(tier, seed, view=mc):
     out = [("msa_corpus", view, corpus_cases("msa"), "msa_case", "msa_case_code"),
            ("msa_replay", view, replay, "msa_case", "msa_case_code"),
            ("msa_stub", view, stub, "msa_case", "msa_case_code")]
+    if view is not mc:      # C11: the score functions themselves against the documented column score
+        rng5 = random.Random(seed + 4)
+        out += [("score_functions", mc.SopView, [mc.gen_sop_case(rng5) for _ in range(z["sop"])],
+                 "sop_case", "sop_case_code")]
     if view is mc:          # the exhaustive prog_align scope and the Alignments clause belong to C04 only
         out += [("msa_exhaustive", view, exh, "msa_case", "msa_case_code"),
                 ("alm_corpus", mc.AlmView, corpus_cases("alm"), "alm_case", "alm_case_code"),
@@ -88,7 +92,9 @@ def fill_coverage(run, tier):
         "where the score grows with the gap weight); an exhaustive small scope (5 tiny sequence sets x EVERY guide tree x "
         "EVERY sequence of valid answers of the profile aligner during prog_align: 2012 cases, quick runs 1/24 of them "
         "chosen by the seed); plus random wordlists with arbitrary "
-        "cognate-set structure for Alignments.align, and wordlists with two or three differently partitioning cognate-id "
+        "cognate-set structure for Alignments.align; (C11 only) a direct stream on the score functions: random gappy "
+        "matrices and column pairs, integer scores, gap weights from {0, 1/8, 1/4, 1/2, 3/4, 1, 3/2}, comparing "
+        "calign/talign.score_profile and Multiple.sum_of_pairs with the documented column score within 2^-30; and wordlists with two or three differently partitioning cognate-id "
         "columns (optionally carrying an alignment column with stale gaps) under histories of add_alignments(ref, override) "
         "/ align(ref) calls over all refs in any order, checked after every call for the ref of that call.  Compared after EVERY call.  Non-trivial (C04) = at least two "
         "unique class strings and a gap in the final alignment; (C11) = at least one end-of-pass refinement call whose "
@@ -130,7 +136,9 @@ def replay(path, prop=PROP):
     env.use_repo()
     case = mc.from_json(rep["case"])
     d = coqrun.rundir(prop + "_replay")
-    if "words" in case and "nref" in case:
+    if "mats" in case and "cols" in case:
+        comp, ctype, cfn = mc.SopView, "sop_case", "sop_case_code"
+    elif "words" in case and "nref" in case:
         comp, ctype, cfn = mc.AlmHView, "almh_case", "almh_case_code"
     elif "words" in case:
         comp, ctype, cfn = mc.AlmView, "alm_case", "alm_case_code"
